@@ -7,7 +7,9 @@ THEOREMS = ["ZI.Registry.find_update", "ZI.Registry.find_remove", "ZI.Registry.r
             "ZI.Registry.subsLeaf_unsubscribe", "ZI.Registry.subsFind_unsubscribe_other", "ZI.Registry.subscribed_eq", "ZI.Registry.C09_provided",
             "ZI.Registry.C09_provided_le", "ZI.Registry.C09_pruned", "ZI.Registry.qsort_perm", "ZI.Registry.mem_allRegistrations_iff",
             "ZI.Registry.allRegistrations_registered", "ZI.Registry.allSubscriptions_leaf", "ZI.Registry.count_allSubscriptions",
-            "ZI.Registry.C09_rebuild_registered", "ZI.Registry.C09_rebuild_subsLeaf", "ZI.Registry.C09_rebuild", "ZI.Registry.provided_leak"]
+            "ZI.Registry.C09_rebuild_registered", "ZI.Registry.C09_rebuild_subsLeaf", "ZI.Registry.C09_rebuild", "ZI.Registry.provided_leak",
+            # replaying the enumerations into an EMPTY registry (ZI/Props/C09Clone.lean)
+            "ZI.Registry.C09_clone_registered", "ZI.Registry.C09_clone_subsLeaf", "ZI.Registry.C09_clone", "ZI.Registry.cloneInto_unfold"]
 PROFILE = dict(weights=[5, 2.5, 3, 1.5, 0.3, 0.7, 0.5], queries=["lookup", "lookupAll", "subs", "book"], nregs=(1, 2), extra_queries=1,
                arity=[0, 1, 1, 2, 2], steps=(8, 30))
 
